@@ -816,3 +816,44 @@ def closure_call(ctx, args, st):
     tup = args[1] if len(args) > 1 else UNIT
     items = list(tup.items) if isinstance(tup, Tup) else []
     return ctx.ex.call_value(f, items, st, ctx.depth + 1)
+
+
+@model(r'^(?:std|alloc|core)::slice::<impl \[.*\]>::sort_by::<')
+def slice_sort_by(ctx, args, st):
+    """std's stable sort for slices of at most 20 elements is insertion_sort_shift_left(v, 1, is_less) with
+    is_less(a, b) = compare(a, b) == Less: element i is moved left while it is less than its left neighbour.
+    The comparator is the real closure; its verdicts fork the path."""
+    r = vec_ref(st, args[0]); v = st.deref(r)
+    n = len(v.items)
+    if n > 20: raise BoundHit('sort_by on more than 20 elements (std switches algorithm)')
+    cmp = args[1]
+    def is_less(s_, a, b):
+        for s2, kind, val in ctx.ex.call_value(cmp, [s_.ref(a), s_.ref(b)], s_, ctx.depth + 1):
+            if kind != 'ret':
+                yield s2, kind, val; continue
+            if not (isinstance(val, Adt) and val.ty == 'Ordering'): raise Unsupported(f'comparator returned {val!r}')
+            yield s2, 'ret', val.variant == 'Less'
+    def insert(s_, items, i, j, tmp):
+        """shift tmp (originally at i) left from position j"""
+        if j == 0:
+            yield from outer(s_, [tmp] + items[:i] + items[i + 1:], i + 1); return
+        for s2, kind, less in is_less(s_, tmp, items[j - 1]):
+            if kind != 'ret':
+                yield s2, kind, less; continue
+            if less: yield from insert(s2, items, i, j - 1, tmp)
+            else: yield from outer(s2, items[:j] + [tmp] + items[j:i] + items[i + 1:], i + 1)
+    def outer(s_, items, i):
+        if i >= len(items):
+            s_.store(r, VecV(items, v.ty)); yield s_, 'ret', UNIT; return
+        yield from insert(s_, items, i, i, items[i])
+    return outer(st, list(v.items), 1)
+
+
+@model(r'^(?:std::option::|core::option::)?Option::<.*>::iter$')
+def option_iter(ctx, args, st):
+    from .iters import mk_list_iter
+    o = st.deref_all(args[0])
+    if not (isinstance(o, Adt) and o.ty == 'Option'): raise Unsupported(f'Option::iter on {o!r}')
+    r = args[0]
+    while isinstance(st.deref(r), Ref): r = st.deref(r)
+    return ret(st, mk_list_iter([Ref(r.alloc, r.path + (0,), False)] if o.variant == 'Some' else []))
